@@ -5,7 +5,7 @@ import ast
 from .. import contracts as K
 from ..exprnf import NF
 from ..idioms import single_def, stmt_of
-from ..model import AnalysisError, call_name, const_value, is_self_attr, kwarg, short, walk_no_nested
+from ..model import AnalysisError, PrivateAnchorMissing, call_name, const_value, is_self_attr, kwarg, short, walk_no_nested
 
 VINE = 'copulas.multivariate.vine.VineCopula'
 TREE = 'copulas.multivariate.tree.'
@@ -71,12 +71,12 @@ def run(ctx, rep):
                       ('D7.polarity', "greedy choices maximise |tau|; the first tree is built on Kendall's tau of the training table"),
                       ('D8.copula', 'every edge carries the family and theta of one select_copula result for its two inputs')):
         rep.rule(rid, text)
-    d1(ctx, rep)
-    d2_d3(ctx, rep)
-    d4(ctx, rep)
-    d5_d6(ctx, rep)
-    d7(ctx, rep)
-    d8(ctx, rep)
+    rep.guarded('D1.d1', d1, ctx, rep)
+    rep.guarded('D2.d2_d3', d2_d3, ctx, rep)
+    rep.guarded('D4.d4', d4, ctx, rep)
+    rep.guarded('D5.d5_d6', d5_d6, ctx, rep)
+    rep.guarded('D7.d7', d7, ctx, rep)
+    rep.guarded('D8.d8', d8, ctx, rep)
 
 
 def d1(ctx, rep):
@@ -158,7 +158,7 @@ def d2_d3(ctx, rep):
         cls = prog.cls(TREE + clsn)
         fn = cls.methods.get(meth)
         if fn is None:
-            raise AnalysisError(f'anchor vanished: {clsn}.{meth}')
+            raise PrivateAnchorMissing(f'{clsn}.{meth}')
         apps = edge_appends(fn)
         if len(apps) == 0:
             rep.undecided('D2.edges', fn, fn.node.name, f'no append to self.edges found in {clsn}.{meth} or in a one-append helper it calls', construct=f'{clsn}.{meth} appends')
